@@ -15,6 +15,14 @@ def c18_1(ctx):
         mod, node = ctx.repo.classes[c]
         init = ctx.repo.funcs.get((mod, c, '__init__'))
         ctx.count(1, '%s:%s' % (mod, c))
+        # the wrapper protocol (_kwargs = everything but the function, used to re-wrap / re-parameterise a decorator) belongs to the base
+        # class alone: a subclass that overrides it drops state when the wrapper is re-created (a cache loses its memo)
+        for special in ('_kwargs', '__call__', '__getattr__'):
+            ov = ctx.repo.funcs.get((mod, c, special))
+            if ov is not None and special == '_kwargs':
+                g = Fn(ctx.repo, mod, c, special, ov)
+                ctx.fail(g, ov, '%s overrides wrapper.%s: re-wrapping (type(self)(function, **self._kwargs)) then loses part of the decorator state' % (c, special),
+                         witness='cache(f) re-wrapped after calls evaluates f again for arguments already seen')
         if init is not None:
             f = Fn(ctx.repo, mod, c, '__init__', init)
             sup = [x for x in ast.walk(init) if isinstance(x, ast.Call) and isinstance(x.func, ast.Attribute) and x.func.attr == '__init__' and isinstance(x.func.value, ast.Call) and call_name(x.func.value) == 'super']
